@@ -342,17 +342,22 @@ fn parse_diff_header_line(line: &str, git_diff_name: bool) -> (String, FileEvent
             let file = _parse_file_path(&line[offset..], git_diff_name);
             (file, FileEvent::Change)
         }
+        // (git quotes the path on these lines as on the ---/+++ lines; they carry no a/ b/ prefix)
         line if line.starts_with("rename from ") => {
-            (line[12..].to_string(), FileEvent::Rename) // "rename from ".len()
+            let path = remove_surrounding_quotes(&line[12..]); // "rename from ".len()
+            (path.to_string(), FileEvent::Rename)
         }
         line if line.starts_with("rename to ") => {
-            (line[10..].to_string(), FileEvent::Rename) // "rename to ".len()
+            let path = remove_surrounding_quotes(&line[10..]); // "rename to ".len()
+            (path.to_string(), FileEvent::Rename)
         }
         line if line.starts_with("copy from ") => {
-            (line[10..].to_string(), FileEvent::Copy) // "copy from ".len()
+            let path = remove_surrounding_quotes(&line[10..]); // "copy from ".len()
+            (path.to_string(), FileEvent::Copy)
         }
         line if line.starts_with("copy to ") => {
-            (line[8..].to_string(), FileEvent::Copy) // "copy to ".len()
+            let path = remove_surrounding_quotes(&line[8..]); // "copy to ".len()
+            (path.to_string(), FileEvent::Copy)
         }
         line if line.starts_with("new file mode ") => {
             (line[14..].to_string(), FileEvent::Added) // "new file mode ".len()
